@@ -483,7 +483,8 @@ Lemma telstate_keys :
   l0_cbid_key = "capture_block_id" /\ l0_stream_key = "stream_name" /\ l0_type_key = "stream_type"
   /\ ts_inherit_key = "inherit" /\ fl_type_key = "stream_type" /\ fl_src_key = "src_streams"
   /\ fl_archived_key = "sdp_archived_streams" /\ ts_sep = "_"
-  /\ ds_chunk_info_key = "chunk_info" /\ fl_chunk_info_key = "chunk_info" /\ ds_dumps_array = "correlator_data".
+  /\ ds_chunk_info_key = "chunk_info" /\ fl_chunk_info_key = "chunk_info" /\ ds_dumps_array = "correlator_data"
+  /\ ci_prefix_key = "chunk_name".
 Proof. repeat split; reflexivity. Qed.
 
 (* ---------- flag stream upgrade ---------- *)
@@ -650,7 +651,7 @@ Lemma span_however_opened u stream cur archived : (0 <= c_dumps cur)%Z ->
          then spec_upgrade stream cur archived else Ok cur) with
   | Err e => Err e
   | Ok c => let n := Z.max (c_dumps cur) (c_dumps c) in
-            Ok (mkOpened (match t with Some k => k | None => n end) (if s then Some (n, c_id c) else None))
+            Ok (mkOpened (match t with Some k => k | None => n end) (if s then Some (n, c_id c, c_from c) else None))
   end.
 Proof.
   intros H s t Hst. rewrite open_spec by exact H. unfold spec_open, upgrade_on. cbn [m_store m_ts m_upgrade].
@@ -663,7 +664,7 @@ Lemma meta_explicit_ignores_streams u k stream cur archived :
 Proof. reflexivity. Qed.
 
 (* ---------- the whole path from the telstate ---------- *)
-Definition dumps_nonneg (vals : vtable) : Prop := forall d rest, In (AInfo d rest) vals -> (0 <= d)%Z.
+Definition dumps_nonneg (vals : vtable) : Prop := forall d rest hp, In (AInfo d rest hp) vals -> (0 <= d)%Z.
 
 Lemma aget_in st vals ps k id v : aget st vals ps k = Some (id, v) -> In v vals.
 Proof.
@@ -676,6 +677,14 @@ Lemma fstream_of_with_spec st vals base cb s :
   fstream_of_with view_capture_stream_on st vals base cb s = fstream_of_with spec_prefixes_on st vals base cb s.
 Proof. unfold fstream_of_with. destruct (chain_of st vals s); [|reflexivity]. rewrite prefix_order_on. reflexivity. Qed.
 
+Lemma info_of_dumps st vals ps k c : dumps_nonneg vals -> info_of st vals ps k = Some (Some c) -> (0 <= c_dumps c)%Z.
+Proof.
+  intros Hv. unfold info_of. destruct (aget st vals ps k) as [[id [x|x|d rest hp|]]|] eqn:E; try discriminate.
+  assert (0 <= d)%Z by (apply (Hv d rest hp); eapply aget_in; eauto).
+  destruct hp; [intros H0; injection H0 as <-; exact H|].
+  destruct (aget st vals ps ci_prefix_key) as [[nid v]|]; [|discriminate]. intros H0; injection H0 as <-; exact H.
+Qed.
+
 Lemma open_telstate_spec m st vals cb stream : dumps_nonneg vals ->
   open_telstate m st vals cb stream = spec_open_telstate m st vals cb stream.
 Proof.
@@ -684,11 +693,10 @@ Proof.
   rewrite prefix_order_on.
   destruct (negb (check_stream_type (astr (aget st vals (spec_prefixes_on [""] cb streams) l0_type_key)))); [reflexivity|].
   destruct (ds_reads_chunk_info (m_store m) (has_ts m)).
-  - destruct (aget st vals (spec_prefixes_on [""] cb streams) ds_chunk_info_key) as [[id [x|x|d rest|]]|] eqn:E;
-      try reflexivity.
+  - destruct (info_of st vals (spec_prefixes_on [""] cb streams) ds_chunk_info_key) as [[cur|]|] eqn:E; try reflexivity.
     rewrite (map_ext _ _ (fstream_of_with_spec st vals (spec_prefixes_on [""] cb streams) cb)).
     destruct (if upgrade_on m then _ else _) as [fs|]; [|reflexivity].
-    apply open_spec. cbn [c_dumps]. apply (Hv d rest). eapply aget_in; eauto.
+    apply open_spec. eapply info_of_dumps; eauto.
   - apply open_spec. cbn [c_dumps]. lia.
 Qed.
 
@@ -710,15 +718,15 @@ Proof. repeat split; reflexivity. Qed.
 (* a telstate with an L0 stream of 3 dumps and an archived flag stream of 5: opened as metadata only it has 5
    timestamps, opened with data 5 dumps of the flag stream's flags; with the upgrade disabled 3 *)
 Definition ex_vals : vtable :=
-  [AStr "cb"; AStr "l0"; AStr "sdp.vis"; AInfo 3 [4; 12]%Z; AStrs ["l0"; "fl"]; AStr "sdp.flags"; AStrs ["l0"];
-   AInfo 5 [4; 12]%Z].
+  [AStr "cb"; AStr "l0"; AStr "sdp.vis"; AInfo 3 [4; 12]%Z true; AStrs ["l0"; "fl"]; AStr "sdp.flags"; AStrs ["l0"];
+   AInfo 5 [4; 12]%Z false; AStr "cb-fl"].
 Definition ex_store : store :=
   [mkEntry "capture_block_id" false 0; mkEntry "stream_name" false 1; mkEntry "l0_stream_type" false 2;
    mkEntry "cb_l0_chunk_info" false 3; mkEntry "sdp_archived_streams" false 4; mkEntry "fl_stream_type" false 5;
-   mkEntry "fl_src_streams" false 6; mkEntry "cb_fl_chunk_info" false 7].
+   mkEntry "fl_src_streams" false 6; mkEntry "cb_fl_chunk_info" false 7; mkEntry "cb_fl_chunk_name" false 8].
 Example nonvacuous_open :
   open_url (mkMode false None None) ex_store ex_vals None None None None = Ok ("cb", "l0", mkOpened 5 None)
-  /\ open_url (mkMode true None None) ex_store ex_vals None None None None = Ok ("cb", "l0", mkOpened 5 (Some (5, 7)%Z))
+  /\ open_url (mkMode true None None) ex_store ex_vals None None None None = Ok ("cb", "l0", mkOpened 5 (Some (5, 7, 8)%Z))
   /\ open_url (mkMode false (Some false) None) ex_store ex_vals None None None None = Ok ("cb", "l0", mkOpened 3 None)
   /\ open_url (mkMode true None None) ex_store ex_vals None None (Some "fl") None = Err 3.
 Proof. repeat split; vm_compute; reflexivity. Qed.
@@ -807,7 +815,7 @@ Proof.
   destruct (chain_of st vals sn) as [streams|]; [|intros H; injection H as <-; auto].
   destruct (negb _); [intros H; injection H as <-; auto|].
   destruct (ds_reads_chunk_info _ _).
-  - destruct (aget st vals _ ds_chunk_info_key) as [[id [s|l|d rest|]]|]; try (intros H; injection H as <-; auto).
+  - destruct (info_of st vals _ ds_chunk_info_key) as [[cur|]|]; try (intros H; injection H as <-; auto).
     destruct (if upgrade_on m then _ else _) as [fs|]; [|intros H; injection H as <-; auto].
     intros H. destruct (open_source_err _ _ _ _ _ H) as [?|[?|?]]; auto.
   - intros H. destruct (open_source_err _ _ _ _ _ H) as [?|[?|?]]; auto.
@@ -868,14 +876,14 @@ Proof. repeat split; vm_compute; reflexivity. Qed.
 (* flag streams: a matching one with the wrong shape after a good one is still an error; a flags stream without its
    sources is a KeyError; streams of other types are ignored *)
 Example nonvacuous_flags :
-  let good := mkF (Some "sdp.flags") (Some ["l0"]) (Some (mkC 7 5 [4; 12]%Z)) in
-  let bad := mkF (Some "sdp.flags") (Some ["x"; "l0"]) (Some (mkC 8 5 [4; 8]%Z)) in
-  let nosrc := mkF (Some "sdp.flags") None (Some (mkC 9 5 [4; 12]%Z)) in
+  let good := mkF (Some "sdp.flags") (Some ["l0"]) (Some (mkC 7 5 [4; 12]%Z 7)) in
+  let bad := mkF (Some "sdp.flags") (Some ["x"; "l0"]) (Some (mkC 8 5 [4; 8]%Z 8)) in
+  let nosrc := mkF (Some "sdp.flags") None (Some (mkC 9 5 [4; 12]%Z 9)) in
   let other := mkF (Some "sdp.cal") None None in
-  upgrade_flags "l0" (mkC 3 3 [4; 12]%Z) [other; good; other] = Ok (mkC 7 5 [4; 12]%Z)
-  /\ upgrade_flags "l0" (mkC 3 3 [4; 12]%Z) [good; bad] = Err 1
-  /\ upgrade_flags "l0" (mkC 3 3 [4; 12]%Z) [nosrc; bad] = Err 2
-  /\ upgrade_flags "l0" (mkC 3 3 [4; 12]%Z) [other] = Ok (mkC 3 3 [4; 12]%Z).
+  upgrade_flags "l0" (mkC 3 3 [4; 12]%Z 3) [other; good; other] = Ok (mkC 7 5 [4; 12]%Z 7)
+  /\ upgrade_flags "l0" (mkC 3 3 [4; 12]%Z 3) [good; bad] = Err 1
+  /\ upgrade_flags "l0" (mkC 3 3 [4; 12]%Z 3) [nosrc; bad] = Err 2
+  /\ upgrade_flags "l0" (mkC 3 3 [4; 12]%Z 3) [other] = Ok (mkC 3 3 [4; 12]%Z 3).
 Proof. repeat split; vm_compute; reflexivity. Qed.
 
 (* F-C18x-1 (repaired): the pinned loop asked the VIEW for the type of the full key, which resolves it through the
